@@ -193,6 +193,19 @@ func ParseCopySourceRange(size int64, acceptRange string) (int64, int64, error) 
 
 // ParseCopySource parses x-amz-copy-source header and returns source bucket,
 // source object, versionId, error respectively
+// ReservedKeyPrefix is the first path segment of the names the posix and
+// scoutfs backends keep for themselves inside a bucket directory (temporary
+// files, multipart uploads in progress). It is not available as an object
+// key: such a key would read, overwrite or delete the staging data of other
+// uploads, would never be listed and would be destroyed with the bucket.
+const ReservedKeyPrefix = ".sgwtmp"
+
+// IsReservedKey reports whether the object key lies in the reserved namespace
+func IsReservedKey(key string) bool {
+	first, _, _ := strings.Cut(key, "/")
+	return first == ReservedKeyPrefix
+}
+
 func ParseCopySource(copySourceHeader string) (string, string, string, error) {
 	if copySourceHeader == "" {
 		return "", "", "", s3err.GetAPIError(s3err.ErrInvalidCopySource)
@@ -225,6 +238,9 @@ func ParseCopySource(copySourceHeader string) (string, string, string, error) {
 		if seg == "." || seg == ".." {
 			return "", "", "", s3err.GetAPIError(s3err.ErrInvalidCopySource)
 		}
+	}
+	if IsReservedKey(srcObject) {
+		return "", "", "", s3err.GetAPIError(s3err.ErrInvalidCopySource)
 	}
 	if versionId == "." || versionId == ".." || strings.ContainsAny(versionId, "/\x00") {
 		return "", "", "", s3err.GetAPIError(s3err.ErrInvalidCopySource)
